@@ -265,7 +265,7 @@ pub fn worker(prop: &dyn Property, a: WorkerArgs) -> i32 {
         }
     });
 
-    let size = prop.size(a.tier);
+    let size = limit(prop.size(a.tier));
     let mut cx = Ctx::new(a.tier);
     let mut last_emit = Instant::now();
     let run_one = |idx: u64, cx: &mut Ctx| -> Result<(), String> {
@@ -416,6 +416,7 @@ fn spawn_worker(id: &str, a: &WorkerArgs) -> std::process::Child {
     if let Some(b) = a.budget_ms {
         cmd.arg("--budget").arg(b.to_string());
     }
+    cmd.env("RUST_BACKTRACE", "0").env("RUST_LIB_BACKTRACE", "0");
     cmd.stdin(Stdio::null()).stdout(Stdio::piped()).stderr(Stdio::null());
     cmd.spawn().expect("spawn worker")
 }
@@ -524,7 +525,7 @@ fn run_shard(prop: &dyn Property, tier: Tier, shard: u64, nshards: u64, agg: &Mu
                 }
             }
         }
-        if from >= prop.size(tier) {
+        if from >= limit(prop.size(tier)) {
             return;
         }
     }
@@ -546,6 +547,14 @@ pub struct Finding {
     pub property: String,
     pub sig: String,
     pub text: String,
+}
+
+/// debugging aid: VERIF_MAX_ELEMENTS truncates the index space (never set by registered commands)
+pub fn limit(n: u64) -> u64 {
+    match std::env::var("VERIF_MAX_ELEMENTS").ok().and_then(|s| s.parse::<u64>().ok()) {
+        Some(m) => n.min(m),
+        None => n,
+    }
 }
 
 pub fn verif_root() -> std::path::PathBuf {
@@ -613,7 +622,7 @@ fn sig_hash(s: &str) -> String {
 pub fn check(prop: &dyn Property, tier: Tier) -> i32 {
     let t0 = Instant::now();
     let id = prop.id();
-    let size = prop.size(tier);
+    let size = limit(prop.size(tier));
     let nshards = (std::thread::available_parallelism().map(|n| n.get() as u64).unwrap_or(8)).min(size.max(1)).min(16);
     let agg = Arc::new(Mutex::new(Agg::default()));
     std::thread::scope(|s| {
